@@ -53,6 +53,7 @@ contains
   end subroutine dup
   subroutine helper_a(x)
     !! helper in alpha
+    use base_c, only: cvar
     integer :: x
     call shared(x)
   end subroutine helper_a
@@ -157,6 +158,19 @@ P3 = {
     "src/b_util.f90": "module util\n!! util of b\ninteger :: from_b\ntype util_t\n!! type in b\ninteger :: q\nend type util_t\nend module util\n",
     "src/c_user.f90": "module Util\n!! Util of c (capitalised)\nend module Util\nprogram user\n!! uses a util\nuse util\nend program user\n",
 }
+# a page tree whose index names only some of its entries in ordered_subpage (the rest follow alphabetically)
+PAGES = {
+    "pages/index.md": "title: Guide\nordered_subpage: zeta.md\n                 sub\n\nTop page.\n",
+    "pages/zeta.md": "title: Zeta\n\nlast in the alphabet, first in the order\n",
+    "pages/alpha.md": "title: Alpha\n\nunlisted a\n",
+    "pages/beta.md": "title: Beta\n\nunlisted b\n",
+    "pages/gamma.md": "title: Gamma\n\nunlisted c\n",
+    "pages/sub/index.md": "title: Sub\nordered_subpage: two.md\n\nsub index\n",
+    "pages/sub/one.md": "title: One\n\none\n",
+    "pages/sub/two.md": "title: Two\n\ntwo\n",
+    "pages/sub/three.md": "title: Three\n\nthree\n",
+}
+P2 = dict(P2, **PAGES)
 PROJECTS = {"P1": P1, "P2": P2, "P3": P3}
 # unqualified references from the project-wide context; `stack` names a type and an interface, `same` several procedures
 FRONT = "Front page. [[stack]] [[root_t]] [[shared]] [[main]] [[gamma]] [[same]] [[other]] [[one]] [[nosuch]]\n"
@@ -187,7 +201,7 @@ def classify(rel):
 
 def build_once(pname, ch, opts, stale=None, perms=None):
     files = PROJECTS[pname]
-    names = sorted(files)
+    names = sorted(f for f in files if f.startswith("src/"))
     perms = perms or list(itertools.permutations(names))
     nd.install()
     nd.begin(ch)
@@ -196,6 +210,8 @@ def build_once(pname, ch, opts, stale=None, perms=None):
         perm = perms[pi]
         fordrun.FILE_ORDER = lambda fl: sorted(fl, key=lambda p: perm.index("src/" + p.name))
         root = fordrun.new_root()
+        if any(f.startswith("pages/") for f in files):
+            opts = dict(opts, page_dir="pages")
         if stale == "other":
             fordrun.write_tree(root, {"doc/module/stale.html": "<html>stale</html>", "doc/src/old.f90": "! old", "doc/index.html": "old", "doc/extra/deep/file.txt": "x"})
         elif stale == "same":
@@ -214,7 +230,7 @@ def default_trace(args):
     from mc.explore import Chooser
 
     ch = Chooser()
-    r, perm, events = build_once(pname, ch, opts, stale, list(itertools.permutations(sorted(PROJECTS[pname]))))
+    r, perm, events = build_once(pname, ch, opts, stale, list(itertools.permutations(sorted(f for f in PROJECTS[pname] if f.startswith("src/")))))
     r.cleanup()
     return [(l, n) for (l, n, _) in ch.trace]
 
@@ -224,7 +240,7 @@ def explore_project(args):
     roots = more[0] if more else None  # shard: explore only the executions whose FIRST deviation is one of these prefixes
     st = Stats()
     base = [None]
-    names = sorted(PROJECTS[pname])
+    names = sorted(f for f in PROJECTS[pname] if f.startswith("src/"))
     perms = list(itertools.permutations(names))
 
     def run(ch):
@@ -303,7 +319,7 @@ def fresh_process_runs(st: Stats, pname, runs):
     fordrun.write_tree(root, PROJECTS[pname])
     snaps = {}
     for (seed, par, gdir) in runs:
-        (root / "proj.md").write_text("project: fresh\npreprocess: false\ngraph: true\nsearch: false\n" + f"parallel: {par}\n" + ("graph_dir: ./graphs\n" if gdir else "")
+        (root / "proj.md").write_text("project: fresh\npreprocess: false\ngraph: true\nsearch: false\n" + f"parallel: {par}\n" + ("graph_dir: ./graphs\n" if gdir else "") + ("page_dir: ./pages\n" if any(f.startswith("pages/") for f in PROJECTS[pname]) else "")
                                       + "creation_date: DATE\nyear: 2000\n\n" + FRONT)
         env = dict(os.environ, PYTHONHASHSEED=str(seed), PYTHONPATH=str(core.REPO), FORD_DEBUGGING="1")
         out = root / "doc"
@@ -362,7 +378,7 @@ def replay(path):
     if "deviations" not in i:
         return 1
     pname, optname = i["project"], i["options"]
-    perms = list(itertools.permutations(sorted(PROJECTS[pname])))
+    perms = list(itertools.permutations(sorted(f for f in PROJECTS[pname] if f.startswith("src/"))))
     texts = []
     for devs in ([], [tuple(d) for d in i["deviations"]]):
         r, perm, events = build_once(pname, LabelChooser(devs), OPTS[optname], i.get("stale"), perms)
